@@ -463,9 +463,8 @@ def run(ck):
     # are checked against the independent oracles above but not evaluated in the model
     limit = 100
     evald = [i for i, c in enumerate(cases)
-             if c["obs"].get("v") != "crash" and len(case_graph(c)[0]) <= limit]
-    ck.coverage["model_not_evaluated_over_%d_nodes" % limit] = sum(
-        1 for c in cases if len(case_graph(c)[0]) > limit)
+             if c["obs"].get("v") != "crash" and (len(case_graph(c)[0]) <= limit or c["s"].startswith("corpus"))]
+    ck.coverage["model_not_evaluated_over_%d_nodes" % limit] = len(cases) - len(evald)
     if evald and model_ok:
         mism = coq_mismatches(ck, cases, evald, "cases")
         if mism is not None:
